@@ -103,13 +103,8 @@ Fixpoint adjust_cursive_connections (dir : direction) (todo : list info) (i : Z)
         adjust_cursive_connections dir rest (i + 1) ps3
       else
         pf1 <- pget ps1 first ;; psnd <- pget ps1 second ;;
-        let ps2 := pset ps1 second (set_y psnd (y_offset psnd + (dy + y_offset pf1))) in
-        ps2nd <- pget ps2 second ;;
-        ps3 <- match cursive_attachment ps2nd with
-               | Some lk => adjust_cursive_chain (length ps2) dy lk ps2
-               | None => Ok ps2
-               end ;;
-        adjust_cursive_connections dir rest (i + 1) ps3
+        let ps2 := pset ps1 second (set_y psnd (y_offset psnd + (y_offset pf1 - dy))) in
+        adjust_cursive_connections dir rest (i + 1) ps2
     | _ => adjust_cursive_connections dir rest (i + 1) ps
     end
   end.
